@@ -303,6 +303,19 @@ def c06_shapes(tier):
     for words, slots, items in ((['-z', S(0)], ['r1:0:9'], ['vb=#0']), (['-z', S(0)], ['r2:10:12'], ['vb=#0']), (['-z', S(0) + ',' + S(1)], ['r2:10:20', 'r2:60:70'], ['vb=#0,#1']),
                                 (['-z', S(0), '--vbool', S(1)], ['r3:127:129', 'r3:190:193'], ['vb=#0,#1'])):
         shapes.append(('hx_pa', [6, 0], lab('c06/vbool', words), {'pa_tmpl': tmpl('ok', items, slots, words)}))
+    # key-value destination: pairs "k,v" separated by ';' ; previous content {1:5}; keys in ascending ranges so that the map order is known
+    KR = ['r2:10:19', 'r2:20:29', 'r2:30:39', 'd2', 'd2', 'd2']
+    for words, items, opt in ((['-m', S(0) + ',' + S(3)], ['kv=1:5+#0:#3'], 0), (['-m', S(0) + ',' + S(3) + ';' + S(1) + ',' + S(4)], ['kv=1:5+#0:#3+#1:#4'], 0),
+                              (['-m', S(1) + ',' + S(4), '--map=' + S(0) + ',' + S(3)], ['kv=1:5+#0:#3+#1:#4'], 0), (['-m', S(0) + ',' + S(3) + ';' + S(1) + ',' + S(4), '-m', S(2) + ',' + S(5)], ['kv=#0:#3+#1:#4+#2:#5'], 1),
+                              (['-m', S(0) + ',' + S(3) + ';' + S(0) + ',' + S(4)], ['kv=1:5+#0:#3'], 4), (['-m', '1,' + S(3)], ['kv=1:5'], 4)):
+        shapes.append(('hx_pa', [11, opt << 8], lab('c06/map%d' % opt, words), {'pa_tmpl': tmpl('ok', items, KR, words)}))
+    for words, slots, opt in ((['-m', S(0) + ',' + S(3) + ';' + S(0) + ',' + S(4)], KR, 8), (['-m', S(0)], KR, 0), (['-m', S(0) + ','], KR, 0), (['-m', ',' + S(3)], KR, 0), (['-m', S(0) + ',' + S(3)], ['r2:10:19', 'd1', 'd1', 'a1'], 0)):
+        shapes.append(('hx_pa', [11, opt << 8], lab('c06/map-bad%d' % opt, words), {'pa_tmpl': tmpl('throw', [], slots, words)}))
+    # tuple: exactly three elements, in order, also split over the list
+    shapes.append(('hx_pa', [11, 0], 'c06/tuple', {'pa_tmpl': tmpl('ok', ['tp=#0,#1,#2'], ['d1', 'd2', 'd3'], ['-t', S(0) + ',' + S(1) + ',' + S(2)])}))
+    shapes.append(('hx_pa', [11, 0], 'c06/tuple long key', {'pa_tmpl': tmpl('ok', ['tp=#0,#1,#2', 'f=1'], ['d2', 'd2', 'd1'], ['--tuple=' + S(0) + ',' + S(1) + ',' + S(2), '-f'])}))
+    for words, slots in ((['-t', S(0) + ',' + S(1)], ['d1', 'd2']), (['-t', S(0) + ',' + S(1) + ',' + S(2) + ',' + S(3)], ['d1', 'd1', 'd1', 'd1']), (['-t', S(0) + ',' + S(1) + ',' + S(2)], ['d1', 'a1', 'd1'])):
+        shapes.append(('hx_pa', [11, 0], lab('c06/tuple-bad', words), {'pa_tmpl': tmpl('throw', [], slots, words)}))
     # free values routed to the free-value argument
     shapes.append(('hx_pa', [6, 64 << 8], 'c06/free values', {'pa_tmpl': tmpl('ok', ['fv=#0,#1', 'f=1'], ['d2', 'd2'], [S(0), '-f', S(1)])}))
     shapes.append(('hx_pa', [6, (64 | 32) << 8], 'c06/multi-value', {'pa_tmpl': tmpl('ok', ['v=7,#0,#1,#2', 'f=1'], R[:3], ['-v', S(0), S(1), S(2), '-f'])}))
